@@ -19,7 +19,8 @@ LEVEL = "exploration"
 RULE = ("W: batches of (type id, payload) packets - every id declared in api.proto x boundary payload sizes, batches of 1..8, "
         "long write sequences per Noise session (nonce continuity across 255/256 and 65535/65536 at thorough) - written through the real "
         "helpers; S: every public APIClient sending method on live plaintext and Noise sessions. Non-trivial = the written bytes were "
-        "fully decoded/decrypted by the independent reference and compared; distinct = (framing, id, payload-size class, batch size, nonce class)")
+        "fully decoded/decrypted by the independent reference and compared; distinct = (framing, id, payload-size class, batch size, nonce class)"
+        " Also: large (>= 65536 B) and small plaintext frames of the same type in one process in both orders; in-domain Noise packets sent after an unrepresentable (> 65515 B) one in the same session must continue the nonce sequence.")
 ASSUMPTIONS = [
     "independent decoder / Noise responder written from api.proto comment and the Noise spec (cross-checked with noiseprotocol default backend at setup)",
     "payloads larger than a Noise frame can carry (>65515 bytes) are unrepresentable in the documented format: probed and reported, not judged",
@@ -156,6 +157,43 @@ def shard(ctx: Ctx) -> None:
             break
     res.count("noise/longest_session_frames", 0)
     res.notes.setdefault("longest_noise_session_frames", []).append(s.frame_no)
+    # ---- plaintext: large and small frames of the same type in ONE process, both orders (anything memoised per (type, length) must key on both
+    #      in full: lengths that differ by a multiple of 65536 share their low 16 bits)
+    if ctx.shard < 6:
+        t_a, t_b = [(9, 11), (7, 21), (75, 99), (2, 3), (120, 123), (36, 37)][ctx.shard]
+        for k in (0, 9, 17):
+            for order in (0, 1):
+                seq = [(t_a, 65536 + k), (t_a, k), (t_b, 131072 + k), (t_b | 1, k), (t_b, k), (t_a, 65536 + k)]
+                if order:
+                    seq.reverse()
+                for ty, n in seq:
+                    plain_batch(ctx, [(ty, pay(n, ty + k))], "large-then-small-same-type")
+    # ---- noise: a packet the format cannot carry (> 65515 bytes) in the MIDDLE of a session - whatever the helper does with it (refuse it, or
+    #      write it with a wrapped length field), the in-domain packets sent afterwards must still use strictly consecutive nonces
+    if ctx.shard < 3:
+        s3 = NoiseSession()
+        okc = all(noise_batch(ctx, s3, [(7, b"")], "before-oversize") for _ in range(3 + ctx.shard))
+        n_before = len(s3.t.writes)
+        raised = None
+        try:
+            s3.h.write_packets([(1, pay(65516 + 1000 * ctx.shard, 1))], False)
+        except Exception as e:  # noqa: BLE001
+            raised = e
+        new = s3.t.writes[n_before:]
+        s3.nwrites = len(s3.t.writes)
+        consumed = "nothing written"
+        if new:
+            try:
+                s3.srv.resp.decrypt(b"".join(new)[3:])      # the outer length field cannot hold the size: take the whole write as the frame body
+                consumed = "written (wrapped length field), decrypts under the next nonce"
+                s3.frame_no += 1
+            except Exception as e:  # noqa: BLE001
+                consumed = f"written but does not decrypt under the next nonce: {e!r}"
+        res.notes.setdefault("oversize_in_session", []).append(f"raised={raised!r}; {consumed}")
+        if okc:
+            for j in range(4):
+                if not noise_batch(ctx, s3, [(7, b"")] if j % 2 else [(8, b"x"), (7, b"")], "after-oversize"):
+                    break
     # ---- observation only: payload larger than the format can carry
     if ctx.shard == 0:
         s2 = NoiseSession()
